@@ -204,7 +204,8 @@ def r03_1(ctx) -> None:
                         ushort, _, p = a[1].partition(":")
                         owner = ctx.pkg.unit(ushort) if ctx.pkg.has_unit(ushort) else None
                         b = bindings(ctx, owner, p) if owner is not None and _is_internal(owner) else None
-                        if not (b and _all_async(ctx, b)):
+                        library_only = bool(b) and all(x[0] in ("libfn", "cls", "lambda", "libinst", "none") for bv in b for x in bv)
+                        if not (b and (_all_async(ctx, b) or library_only)):
                             ok = False
                     ctx.check(ok, "R03.1", u, call,
                               f"`{norm(call.func)}` is an awaitified / library-async callable at every call site of this "
